@@ -292,7 +292,57 @@ func Eq(a, b *Term) *Term {
 			return Not(a)
 		}
 	}
+	// comparison with a short string literal: state length and elements as well (extensionality instance)
+	if a.Sort.Kind == KSeq && a.Sort.Elem == SInt {
+		if la, oka := seqLiteral(a); oka {
+			if _, okb := seqLiteral(b); !okb && len(la) <= 12 {
+				return eqLit(b, a, la)
+			}
+		} else if lb, okb := seqLiteral(b); okb && len(lb) <= 12 {
+			return eqLit(a, b, lb)
+		}
+	}
 	return App("=", SBool, a, b)
+}
+
+// seqLiteral returns the elements of a ground literal sequence term.
+func seqLiteral(t *Term) ([]*Term, bool) {
+	n := t.Sort.Name
+	switch t.Op {
+	case "empty." + n:
+		return nil, true
+	case "unit." + n:
+		if t.Args[0].Int != nil {
+			return []*Term{t.Args[0]}, true
+		}
+	case "cat." + n:
+		a, ok := seqLiteral(t.Args[0])
+		if !ok {
+			return nil, false
+		}
+		b, ok := seqLiteral(t.Args[1])
+		if !ok {
+			return nil, false
+		}
+		return append(append([]*Term{}, a...), b...), true
+	case "lit." + n:
+		for _, a := range t.Args {
+			if a.Int == nil {
+				return nil, false
+			}
+		}
+		return t.Args, true
+	}
+	return nil, false
+}
+
+func eqLit(x, lit *Term, elems []*Term) *Term {
+	n := x.Sort.Name
+	cs := []*Term{App("=", SBool, x, lit), App("=", SBool, App("len."+n, SInt, x), IntLit(int64(len(elems))))}
+	for i, e := range elems {
+		cs = append(cs, App("=", SBool, App("at."+n, SInt, x, IntLit(int64(i))), e))
+	}
+	return App("and", SBool, cs...)
 }
 
 func Ite(c, a, b *Term) *Term {
